@@ -266,6 +266,7 @@ def run_late(ctx, rng, cands, spec):
             outs_for[cur].append(p)
     selection = None
     opened = []
+    app_ids = {}
     case = {'lines': lines, 'filter': None, 'hooks': {str(p): [c[0] for c in v] for p, v in hooks.items()}, 'late': True}
     unresolved = 0
     for idx in range(len(lines)):
@@ -273,11 +274,17 @@ def run_late(ctx, rng, cands, spec):
             if c[1] == 'connection':
                 if c[2] == 'all':
                     selection = None
-                elif c[2] in opened:
-                    selection = c[2]
+                else:
+                    # (a connection's app id works as its name too: thorough tier, seed 21, `connection B` while only A - whose
+                    # app id is "B" - existed)
+                    hit = streams.select_connection(c[2], opened, app_ids)
+                    if hit is not None:
+                        selection = hit
         name = names[entries[idx]['ci']]
         if name not in opened:
             opened.append(name)
+        if streams.app_id_of(entries[idx]['rec']):
+            app_ids[name] = streams.app_id_of(entries[idx]['rec'])
         if idx >= len(msgs):
             ctx.violation('not-recorded', '[late attach] %d messages recorded for %d lines' % (len(msgs), len(lines)), case)
             return
